@@ -179,6 +179,21 @@ func gen(r *vc.Rand, thorough bool) (untimed, timed []job) {
 		add(forwardHistory(r, b), "gen:forward-history")
 	}
 
+	// --- 3d. the polling lookup of the target node (real lookupTunnelRouting behind a gated store): registrations,
+	// removals, lapses and restarts land between two of its polls; crash-restarts of nodes over the same storage.
+	for _, b := range backends {
+		for _, cs := range pollScenarios(r, b) {
+			add(cs, "gen:poll-restart-scenario")
+		}
+	}
+	nPoll := 60
+	if thorough {
+		nPoll = 900
+	}
+	for i := 0; i < nPoll; i++ {
+		add(pollHistory(r, vc.Pick(r, backends)), "gen:poll-restart-history")
+	}
+
 	// --- 4. excluded points: strings that are not valid UTF-8 (JSON replaces the bytes)
 	for _, b := range backends {
 		bad := rec{tid: "t\xff\xfe", mp: "\xc3(", sec: "ok", src: "node-0", host: "\x80"}
@@ -219,6 +234,8 @@ func gen(r *vc.Rand, thorough bool) (untimed, timed []job) {
 			addT(b, "300,300,0", []string{fmtRec("reg", n, rc), "adv:500", look(m, "T"), fmtRec("reg", 1-n, rc2), look(m, "T"), "adv:150", look(m, "T"), "advw:500", look(m, "T")}, "gen:timed-reregister")
 			// bridge opened, never served, waiting period lapses; the bridge end afterwards is harmless
 			addT(b, "300,300,0", []string{fmtRec("open", n, rc), look(m, "T"), "adv:500", look(m, "T"), end(n, "T"), look(m, "T")}, "gen:timed-open")
+			// the polling lookup meets a record whose waiting period lapsed on the nodes' clock only: "expired" means keep polling
+			addT(b, "300,300,0", []string{fmtRec("reg", n, rc), "advw:500", poll(m, "T", 1), fmtRec("reg", 1-n, rc2), pend(m, "T")}, "gen:timed-poll")
 		}
 	}
 	nTimed := 120
@@ -436,11 +453,87 @@ func forwardHistory(r *vc.Rand, b string) string {
 		case 12, 13, 14:
 			evs = append(evs, rega(node, vc.Pick(r, nodes), vc.Pick(r, eps)))
 		case 15:
-			if r.Bool() {
+			if r.Intn(3) == 0 {
+				evs = append(evs, restart(node))
+			} else if r.Bool() {
 				evs = append(evs, geta(node, vc.Pick(r, nodes)))
 			} else {
 				evs = append(evs, fmt.Sprintf("advs:%d", vc.Pick(r, []int{1, 29999, 30000, 86399999, 86400000})))
 			}
+		}
+	}
+	return mk(b, "0,0,0", evs)
+}
+
+func poll(n int, tid string, k int) string { return fmt.Sprintf("poll:%d:%s:%d", n, hx(tid), k) }
+func pend(n int, tid string) string        { return fmt.Sprintf("pend:%d:%s", n, hx(tid)) }
+func restart(n int) string                 { return fmt.Sprintf("restart:%d", n) }
+
+func pollScenarios(r *vc.Rand, b string) []string {
+	s, f := r.Intn(3), 0
+	f = (s + 1 + r.Intn(2)) % 3
+	sn := fmt.Sprintf("node-%d", s)
+	t1, t2 := fwdRec(r, "T1", sn), fwdRec(r, "T1", "node-x")
+	return []string{
+		// the registration lands between the 2nd and the 3rd poll
+		mk(b, "0,0,0", []string{poll(f, "T1", 2), fmtRec("reg", s, t1), pend(f, "T1")}),
+		// already waiting: the first poll returns it; nothing waiting: polls, then times out
+		mk(b, "0,0,0", []string{fmtRec("reg", s, t1), poll(f, "T1", 1), pend(f, "T1"), poll(f, "T2", 1), pend(f, "T2")}),
+		// registered and removed again before the next poll; re-registered with other data before the last one
+		mk(b, "0,0,0", []string{poll(f, "T1", 1), fmtRec("reg", s, t1), rem(f, "T1"), poll(f, "T1", 1), fmtRec("reg", (s+1)%3, t2), pend(f, "T1")}),
+		// the record lapses on the Redis clock between two polls; a new registration is found
+		mk(b, "0,0,0", []string{fmtRec("reg", s, t1), "advs:30000", poll(f, "T1", 2), fmtRec("reg", s, t2), pend(f, "T1"), "advs:29999", poll(f, "T1", 1), "advs:1", pend(f, "T1")}),
+		// a bridge opens between polls; it ends before the last poll
+		mk(b, "0,0,0", []string{poll(f, "T1", 1), fmtRec("open", s, t1), poll(f, "T1", 1), end(s, "T1"), pend(f, "T1")}),
+		// zero polls, empty id
+		mk(b, "0,0,0", []string{fmtRec("reg", s, t1), poll(f, "T1", 0), pend(f, "T1"), poll(f, "", 1), pend(f, "")}),
+		// crash-restart of the source node: its record keeps resolving from everywhere (and from itself), a new bridge for the id can open
+		mk(b, "0,0,0", []string{fmtRec("open", s, t1), rega(s, sn, "@1"), restart(s), look(f, "T1"), look(s, "T1"), geta(s, sn), fwd(f, "T1"),
+			fmtRec("open", s, t1), end(s, "T1"), look(f, "T1")}),
+		// crash-restart of the looking-up / forwarding node: nothing it knew survives, everything in storage does
+		mk(b, "0,0,0", []string{fmtRec("reg", s, t1), rega(s, sn, "@2"), look(f, "T1"), fwd(f, "T1"), restart(f), look(f, "T1"), rem(s, "T1"), look(f, "T1"),
+			fmtRec("reg", s, t2), rega(s, "node-x", "@3"), restart(f), fwd(f, "T1"), poll(f, "T1", 1)}),
+		// the node address is refreshed: its 24 h run from the last registration
+		mk(b, "0,0,0", []string{rega(s, sn, "@0"), "advs:50000000", rega(s, sn, "@0"), "advs:50000000", geta(f, sn), "advs:36399999", geta(f, sn), "advs:1", geta(f, sn)}),
+	}
+}
+
+func pollHistory(r *vc.Rand, b string) string {
+	tids := []string{"T1", "T2", vc.Pick(r, idPool)}
+	nodes := []string{"node-0", "node-1", "node-2"}
+	n := 6 + r.Intn(9)
+	var evs []string
+	polls := 0
+	for k := 0; k < n; k++ {
+		node := r.Intn(3)
+		tid := vc.Pick(r, tids)
+		switch r.Intn(14) {
+		case 0, 1, 2:
+			evs = append(evs, fmtRec("reg", node, fwdRec(r, tid, vc.Pick(r, nodes))))
+		case 3:
+			evs = append(evs, fmtRec("open", node, fwdRec(r, tid, "")))
+		case 4:
+			evs = append(evs, rem(node, tid))
+		case 5:
+			evs = append(evs, end(node, tid))
+		case 6, 7:
+			if polls < 3 {
+				polls++
+				evs = append(evs, poll(node, tid, r.Intn(3)))
+			}
+		case 8, 9:
+			if polls < 4 {
+				polls++
+				evs = append(evs, pend(node, tid))
+			}
+		case 10:
+			evs = append(evs, restart(node))
+		case 11:
+			evs = append(evs, look(node, tid))
+		case 12:
+			evs = append(evs, fmt.Sprintf("advs:%d", vc.Pick(r, []int{1, 29999, 30000})))
+		case 13:
+			evs = append(evs, rega(node, vc.Pick(r, nodes), vc.Pick(r, []string{"@0", "@1", "@2"})), fwd(r.Intn(3), tid))
 		}
 	}
 	return mk(b, "0,0,0", evs)
